@@ -243,6 +243,44 @@ theorem relax_foldl (d cur : Nat) : ∀ (l : List Nat) (s : DState), l.Nodup →
       rw [hx.1, hx.2, hc.2] at this
       simpa [hxo] using this
 
+theorem ext_getD {α} (l1 l2 : List α) (d : α) (hlen : l1.length = l2.length)
+    (h : ∀ i, l1.getD i d = l2.getD i d) : l1 = l2 := by
+  apply List.ext_getElem hlen
+  intro i h1 h2
+  have := h i
+  simpa [List.getD_eq_getElem?_getD, h1, h2] using this
+
+/-- The relaxation loop does not depend on the iteration order of the Python set
+`unvisted_neighbors`: any two duplicate-free enumerations of the same set give the same state. -/
+theorem relax_foldl_order_indep (d cur : Nat) (l1 l2 : List Nat) (s : DState)
+    (h1 : l1.Nodup) (h2 : l2.Nodup) (hmem : ∀ x, x ∈ l1 ↔ x ∈ l2) (hcur : cur ∉ l1)
+    (hl : ∀ o ∈ l1, o < s.dist.length ∧ o < s.paths.length) :
+    l1.foldl (relaxStep d cur) s = l2.foldl (relaxStep d cur) s := by
+  obtain ⟨au, ad, ap, ax⟩ := relax_foldl d cur l1 s h1 hcur hl
+  obtain ⟨bu, bd, bp, bx⟩ := relax_foldl d cur l2 s h2 (fun h => hcur ((hmem _).2 h))
+    (fun o ho => hl o ((hmem o).2 ho))
+  have hx : ∀ x, (l1.foldl (relaxStep d cur) s).dist.getD x none =
+        (l2.foldl (relaxStep d cur) s).dist.getD x none ∧
+      (l1.foldl (relaxStep d cur) s).paths.getD x [] =
+        (l2.foldl (relaxStep d cur) s).paths.getD x [] := by
+    intro x
+    by_cases h : x ∈ l1 ∧ wlt (some (d + 1)) (s.dist.getD x none) = true
+    · have h' : x ∈ l2 ∧ wlt (some (d + 1)) (s.dist.getD x none) = true := ⟨(hmem x).1 h.1, h.2⟩
+      have a := (ax x).1 h
+      have b := (bx x).1 h'
+      exact ⟨a.1.trans b.1.symm, a.2.trans b.2.symm⟩
+    · have h' : ¬ (x ∈ l2 ∧ wlt (some (d + 1)) (s.dist.getD x none) = true) :=
+        fun e => h ⟨(hmem x).2 e.1, e.2⟩
+      have a := (ax x).2 h
+      have b := (bx x).2 h'
+      exact ⟨a.1.trans b.1.symm, a.2.trans b.2.symm⟩
+  generalize l1.foldl (relaxStep d cur) s = s1 at *
+  generalize l2.foldl (relaxStep d cur) s = s2 at *
+  cases s1; cases s2
+  simp only [DState.mk.injEq]
+  exact ⟨au.trans bu.symm, ext_getD _ _ none (ad.trans bd.symm) (fun i => (hx i).1),
+    ext_getD _ _ [] (ap.trans bp.symm) (fun i => (hx i).2)⟩
+
 /-! ### the loop invariant -/
 /-- `p` is a path `src … x` with `d` edges -/
 structure GoodPath (g : G) (src x : Nat) (p : List Nat) (d : Nat) : Prop where
@@ -508,5 +546,85 @@ theorem loop_spec {g : G} (hwf : g.WF) {src : Nat} (hs : src < g.n) :
           rw [hu, List.length_erase_of_mem hcur]
           omega
         exact loop_spec hwf hs fuel _ inv' hlen
+
+theorem shortestPathTree_eq (g : G) (src : Nat) :
+    g.shortestPathTree src = dijkstraLoop g g.n
+      { unvisited := List.range g.n,
+        dist := (List.replicate g.n none).set src (some 0),
+        paths := (List.replicate g.n []).set src [src] } := rfl
+
+/-! ### final theorems -/
+/-- If `get_shortest_path_tree(s)` returns, the result has one entry per vertex, and the entry of
+`v` is a path `s … v` in the graph with the minimum possible number of edges. -/
+theorem shortestPathTree_some (g : G) (hwf : g.WF) (s : Nat) (hs : s < g.n) (ps : List (List Nat))
+    (h : g.shortestPathTree s = some ps) :
+    ps.length = g.n ∧ ∀ v, v < g.n →
+      (ps.getD v []).head? = some s ∧ (ps.getD v []).getLast? = some v ∧ IsPath g (ps.getD v []) ∧
+      WalkLen g s v ((ps.getD v []).length - 1) ∧
+      ∀ k, WalkLen g s v k → (ps.getD v []).length - 1 ≤ k := by
+  have hl := loop_spec hwf hs g.n _ (inv_init g s hs) (by simp)
+  rw [← shortestPathTree_eq, h] at hl
+  obtain ⟨s', inv, hU, rfl⟩ := hl
+  refine ⟨inv.lenP, ?_⟩
+  intro v hv
+  obtain ⟨d, hd, hopt⟩ := inv.opt v hv (by rw [hU]; simp)
+  have gp := inv.sound v d hv hd
+  have hlen : (s'.paths.getD v []).length - 1 = d := by rw [gp.len]; omega
+  rw [hlen]
+  exact ⟨gp.head, gp.last, gp.isPath, gp.walk, hopt⟩
+
+/-- `get_shortest_path_tree(s)` raises `RuntimeError` exactly when some vertex is unreachable
+from `s`. -/
+theorem shortestPathTree_none_iff (g : G) (hwf : g.WF) (s : Nat) (hs : s < g.n) :
+    g.shortestPathTree s = none ↔ ∃ v, v < g.n ∧ ¬ Reach g s v := by
+  constructor
+  · intro h
+    have hl := loop_spec hwf hs g.n _ (inv_init g s hs) (by simp)
+    rw [← shortestPathTree_eq, h] at hl
+    obtain ⟨v, hv, hw⟩ := hl
+    refine ⟨v, hv, ?_⟩
+    rw [reach_iff_walkLen]
+    rintro ⟨k, hk⟩
+    exact hw k hk
+  · rintro ⟨v, hv, hnr⟩
+    cases h : g.shortestPathTree s with
+    | none => rfl
+    | some ps =>
+      have := ((shortestPathTree_some g hwf s hs ps h).2 v hv).2.2.2.1
+      exact absurd this.reach hnr
+
+/-- consequence: the result is `some` iff every vertex is reachable from the source -/
+theorem shortestPathTree_isSome_iff (g : G) (hwf : g.WF) (s : Nat) (hs : s < g.n) :
+    (g.shortestPathTree s).isSome = true ↔ ∀ v, v < g.n → Reach g s v := by
+  have := shortestPathTree_none_iff g hwf s hs
+  cases h : g.shortestPathTree s with
+  | none =>
+    obtain ⟨v, hv, hnr⟩ := this.1 h
+    simp only [Option.isSome_none, Bool.false_eq_true, false_iff]
+    intro hall
+    exact hnr (hall v hv)
+  | some ps =>
+    simp only [Option.isSome_some, true_iff]
+    intro v hv
+    exact (((shortestPathTree_some g hwf s hs ps h).2 v hv).2.2.2.1).reach
+
+/-! ### non-vacuity -/
+/-- connected example: the path 0 - 1 - 2 - 3 with the chord 0 - 2, source 1 -/
+example : (G.mk 4 [(0, 1), (1, 2), (2, 3), (0, 2)]).WF ∧
+    1 < (G.mk 4 [(0, 1), (1, 2), (2, 3), (0, 2)]).n ∧
+    (G.mk 4 [(0, 1), (1, 2), (2, 3), (0, 2)]).shortestPathTree 1 =
+      some [[1, 0], [1], [1, 2], [1, 2, 3]] := by
+  refine ⟨?_, by decide, by decide⟩
+  unfold G.WF; decide
+
+/-- disconnected example: vertex 2 is isolated, the call raises -/
+example : (G.mk 3 [(0, 1)]).WF ∧ 0 < (G.mk 3 [(0, 1)]).n ∧
+    (G.mk 3 [(0, 1)]).shortestPathTree 0 = none := by
+  refine ⟨?_, by decide, by decide⟩
+  unfold G.WF; decide
+
+/-- and by the theorem the isolated vertex is indeed unreachable -/
+example : ∃ v, v < 3 ∧ ¬ Reach (G.mk 3 [(0, 1)]) 0 v :=
+  (shortestPathTree_none_iff (G.mk 3 [(0, 1)]) (by unfold G.WF; decide) 0 (by decide)).1 (by decide)
 
 end BqVerif.Graph
